@@ -79,6 +79,8 @@ class CacheWorld(object):
     self.final_phase = False
     self.db_seq = {}
     self.lag_changed = False
+    self.handed = {}
+    self.accepted_from_receivers = {}
 
   # ------------------------------------------------------------------ set-up
   def install(self):
@@ -246,6 +248,14 @@ class CacheWorld(object):
     self.curop[t] = prev
     metric, dps = res
     self.ctx.log.add('drain', metric, tuple(dps))
+    for (ts, v) in dps:
+      k = (metric, ts, repr(v))
+      self.handed[k] = self.handed.get(k, 0) + 1
+      if self.handed[k] > self.accepted_from_receivers.get(k, 0):
+        self.ctx.violation('C02', 'handed-out-twice', 'drain_metric',
+                           'datapoint %r of %r was handed out by %d drains but accepted from a receiver '
+                           '%d times' % ((ts, v), metric, self.handed[k],
+                                         self.accepted_from_receivers.get(k, 0)))
     self.whist.append(('drain', metric, list(dps), self.stats_snapshot(), self.s.now,
                        self.stopping))
     op.result = res
@@ -303,6 +313,11 @@ class CacheWorld(object):
     op.expect = out
     if out in ('ok', 'dup'):
       self.last_store[(op.m, op.ts)] = self.model.step
+      if self.s.cur != 'W':
+        k = (op.m, op.ts, repr(op.v))
+        self.accepted_from_receivers[k] = self.accepted_from_receivers.get(k, 0) + 1
+      else:
+        self.ctx.probe('store_from_writer_thread')
     if out == 'overflow':
       self.ctx.probe('store_refused')
     elif out == 'dup':
@@ -775,6 +790,11 @@ class CacheWorld(object):
         for tag in tags:
           ctx.violation(tag, 'write-under-other-name', 'write',
                         'batch drained for %r but write went to %r' % (metric, d[3]))
+      for d in writes:
+        if d[3] not in self.files_at(d[0]):
+          for tag in tags:
+            ctx.violation(tag, 'write-before-create', 'write',
+                          'write(%r) issued although its file was never created' % (d[3],))
       first = dbs[0] if dbs else None
       d_commit = nxt['committedPoints'] - stats0['committedPoints']
       d_err = nxt['errors'] - stats0['errors']
